@@ -1318,9 +1318,22 @@ def _promote_hook(interp, recv, args, kw):
 def _setitem(ctx, R_LOOP: str = "b.validation-loop", R_APPLIED: str = "b.target-applied") -> None:
     prog = ctx.prog
     f, loop, pre, post = validation_loop(prog)
-    if not isinstance(loop.target, ast.Name):
-        raise AnalysisError("validation loop target is not a simple name")
-    val = loop.target.id
+    if isinstance(loop.target, ast.Name):
+        val = loop.target.id
+    else:
+        # `for _, val in updates` / `for idx, val in updates`: the VALUE is the name of the target the body tests against None
+        # (or the only one it reads at all); a position read alongside does not take part in the dtype decision
+        names = [n.id for n in ast.walk(loop.target) if isinstance(n, ast.Name)]
+        read = [x for x in names if any(isinstance(n, ast.Name) and n.id == x and isinstance(n.ctx, ast.Load)
+                                        for st in loop.body for n in ast.walk(st))]
+        none_tested = [x for x in names if any(isinstance(n, ast.Compare) and isinstance(n.left, ast.Name) and n.left.id == x
+                                               and len(n.ops) == 1 and isinstance(n.ops[0], (ast.Is, ast.IsNot))
+                                               and isinstance(n.comparators[0], ast.Constant) and n.comparators[0].value is None
+                                               for st in loop.body for n in ast.walk(st))]
+        pick = read if len(read) == 1 else none_tested
+        if len(pick) != 1 or not all(isinstance(e_, ast.Name) for e_ in getattr(loop.target, "elts", [])):
+            raise AnalysisError("validation loop target: the value variable could not be told")
+        val = pick[0]
     I = Interp(prog)
     I.hooks["vector.Vector._promote"] = _promote_hook
     tags = CORE_TAGS + SUB_TAGS
